@@ -308,47 +308,104 @@ Definition mapping := list (ev * meth).        (* a dict name -> method name, in
 
 Record cdef := {
   cd_cls : cls;
-  cd_base : option cls;          (* single base (None: a fresh root) *)
+  cd_bases : list cls;           (* the bases, in order ([]: a fresh root) *)
   cd_names : list ev;            (* positional arguments of event_handler: names *)
   cd_maps : list (ev * meth);    (* keyword arguments of event_handler: name=method *)
 }.
 
-Definition ctable := list (cls * mapping).     (* what getattr(cls, '__events__') gives, per class *)
+(* what getattr(cls, '__events__', None) gives, per class (None: no such attribute) *)
+Definition ctable := list (cls * option mapping).
+
+(* observed after a class definition: the method resolution order Python gave
+   the new class, and __events__ of every class defined so far *)
+Record cobs := { co_mro : list cls; co_tab : ctable }.
+
+(* static facts about a class: its MRO and whether the decorator assigned
+   __events__ to it (event_handler() without arguments returns cls unchanged) *)
+Record cinfo := { ci_mro : list cls; ci_own : bool }.
 
 (* d1 | d2 on dicts *)
 Definition dict_or (d1 d2 : mapping) : mapping := fold_left (fun acc em => aset (fst em) (snd em) acc) d2 d1.
 
+Definition empty_deco (d : cdef) : bool := isnil (cd_names d) && isnil (cd_maps d).
+
+(* attribute lookup: the first class of the MRO that owns the attribute *)
+Definition owns (info : list (cls * cinfo)) (b : cls) : bool :=
+  match alookup b info with Some i => ci_own i | None => false end.
+Definition first_owner (info : list (cls * cinfo)) (l : list cls) : option cls := find (owns info) l.
+
+(* getattr(cls, '__events__', {}) as the decorator sees it, before it assigns *)
+Definition inherited (info : list (cls * cinfo)) (tb : ctable) (mro : list cls) : option mapping :=
+  match first_owner info (tl mro) with
+  | Some b => match alookup b tb with Some om => om | None => None end
+  | None => None
+  end.
+Definition or_empty (om : option mapping) : mapping := match om with Some m => m | None => [] end.
+
 (* the decorator: inherited | dict(zip(names, names)) | mappings, assigned to the
    new class only; an empty decorator leaves the class with what it inherits *)
-Definition decorate (tb : ctable) (d : cdef) : ctable :=
-  let inherited := match cd_base d with
-                   | Some b => match alookup b tb with Some m => m | None => [] end
-                   | None => [] end in
-  if isnil (cd_names d) && isnil (cd_maps d) then tb ++ [(cd_cls d, inherited)]
-  else tb ++ [(cd_cls d, dict_or (dict_or inherited (map (fun n => (n, n)) (cd_names d))) (cd_maps d))].
+Definition decorated (info : list (cls * cinfo)) (tb : ctable) (d : cdef) (mro : list cls) : option mapping :=
+  let inh := inherited info tb mro in
+  if empty_deco d then inh
+  else Some (dict_or (dict_or (or_empty inh) (map (fun n => (n, n)) (cd_names d))) (cd_maps d)).
+Definition decorate (info : list (cls * cinfo)) (tb : ctable) (d : cdef) (mro : list cls) : ctable :=
+  tb ++ [(cd_cls d, decorated info tb d mro)].
 
 (* dict equality (order of items is not part of the property) *)
 Definition sub_map (m1 m2 : mapping) : bool :=
   forallb (fun em => match alookup (fst em) m2 with Some v => v =? snd em | None => false end) m1.
 Definition mapping_eqb (m1 m2 : mapping) : bool := sub_map m1 m2 && sub_map m2 m1.
+Definition omapping_eqb (a b : option mapping) : bool :=
+  match a, b with
+  | Some m1, Some m2 => mapping_eqb m1 m2
+  | None, None => true
+  | _, _ => false
+  end.
 Fixpoint ctable_eqb (t1 t2 : ctable) : bool :=
   match t1, t2 with
   | [], [] => true
-  | (c1, m1) :: t1, (c2, m2) :: t2 => (c1 =? c2) && mapping_eqb m1 m2 && ctable_eqb t1 t2
+  | (c1, m1) :: t1, (c2, m2) :: t2 => (c1 =? c2) && omapping_eqb m1 m2 && ctable_eqb t1 t2
   | _, _ => false
   end.
 
-(* after every class definition the harness reads __events__ of all classes *)
-Fixpoint cls_run (tb : ctable) (ds : list (cdef * ctable)) : bool :=
+(* The MRO is Python's, read from the observation; the model checks that it
+   is a consistent linearisation (what C3 guarantees): the class first, no
+   repetition, the bases in their order, the MRO of every base kept as a
+   subsequence, and nothing else. *)
+Fixpoint subseq (a b : list Z) : bool :=
+  match a, b with
+  | [], _ => true
+  | _ :: _, [] => false
+  | x :: a', y :: b' => if x =? y then subseq a' b' else subseq a b'
+  end.
+Fixpoint nodupz (l : list Z) : bool :=
+  match l with [] => true | x :: l => negb (inb x l) && nodupz l end.
+Definition mro_of (info : list (cls * cinfo)) (b : cls) : list cls :=
+  match alookup b info with Some i => ci_mro i | None => [b] end.
+Definition mro_ok (info : list (cls * cinfo)) (d : cdef) (mro : list cls) : bool :=
+  match mro with
+  | [] => false
+  | c :: rest =>
+      (c =? cd_cls d) && nodupz mro && subseq (cd_bases d) rest &&
+      forallb (fun b => subseq (mro_of info b) rest) (cd_bases d) &&
+      forallb (fun x => existsb (fun b => inb x (mro_of info b)) (cd_bases d)) rest
+  end.
+
+(* after every class definition the harness reads the MRO of the new class and
+   __events__ of all classes *)
+Fixpoint cls_run (info : list (cls * cinfo)) (tb : ctable) (ds : list (cdef * cobs)) : bool :=
   match ds with
   | [] => true
-  | (d, ob) :: ds => let tb' := decorate tb d in ctable_eqb tb' ob && cls_run ob ds
+  | (d, ob) :: ds =>
+      mro_ok info d (co_mro ob) &&
+      ctable_eqb (decorate info tb d (co_mro ob)) (co_tab ob) &&
+      cls_run (info ++ [(cd_cls d, {| ci_mro := co_mro ob; ci_own := negb (empty_deco d) |})]) (co_tab ob) ds
   end.
 
 (* ------------------------------------------------------------------ *)
 (* A case as the harness encodes it.                                    *)
 Record ecase := {
-  c_classes : list (cdef * ctable);          (* definitions, each with the observed tables *)
+  c_classes : list (cdef * cobs);            (* definitions, each with what was observed after it *)
   c_hcls : list (hid * cls);                 (* class of each handler *)
   c_eqs : list (hid * hid);                  (* h |-> h0: h is a distinct object that is == and hash-equal to h0 (K4) *)
   c_scripts : list (hid * list (meth * list action));
@@ -356,8 +413,8 @@ Record ecase := {
   c_log : list entry;
 }.
 
-Fixpoint last_table (ds : list (cdef * ctable)) : ctable :=
-  match ds with [] => [] | [(_, ob)] => ob | _ :: ds => last_table ds end.
+Fixpoint last_table (ds : list (cdef * cobs)) : ctable :=
+  match ds with [] => [] | [(_, ob)] => co_tab ob | _ :: ds => last_table ds end.
 
 Definition key_of (eqs : list (hid * hid)) (h : hid) : Z :=
   match alookup h eqs with Some r => r | None => h end.
@@ -365,7 +422,7 @@ Definition key_of (eqs : list (hid * hid)) (h : hid) : Z :=
 Definition params_of (c : ecase) : params :=
   {| events_of := fun h => match alookup h (c_hcls c) with
                            | Some k => match alookup k (last_table (c_classes c)) with
-                                       | Some m => m | None => [] end
+                                       | Some om => or_empty om | None => [] end
                            | None => [] end;
      script := fun h m => match alookup h (c_scripts c) with
                           | Some ms => match alookup m ms with Some s => s | None => [] end
@@ -373,6 +430,6 @@ Definition params_of (c : ecase) : params :=
      keyf := key_of (c_eqs c) |}.
 
 Definition accepts (c : ecase) : bool :=
-  cls_run [] (c_classes c) && maccepts (params_of c) (c_ops c) (c_log c).
+  cls_run [] [] (c_classes c) && maccepts (params_of c) (c_ops c) (c_log c).
 
 Definition bit (b : bool) (n : nat) : nat := if b then n else 0%nat.
